@@ -201,6 +201,8 @@ class C14(LoopProp):
                 for size in [0, 1, b - 1, b, b + 1, w * b, w * b + 1, (2 * w + 1) * b + 3]:
                     if size > 300000 and tier == "quick":
                         continue
+                    if size > 1200000 or (w == 65535 and size > 70000):
+                        continue   # the list-based simulator is quadratic in the number of datagrams in flight: keep runs finite
                     for rep in [1, 2]:
                         lines.append(loop_line(b, w, 5000, rep, "gen:%d:%d" % (size, (b + w) % 256)))
         lines.append(loop_line(8, 65535, 5000, 1, "gen:4000:3"))
